@@ -123,3 +123,25 @@ Theorem C01_load_trie_inv_nounk : forall N (unigrams : list gram) (higher : list
   load_trie N false unk_prob unigrams higher = Loaded t ->
   TInv N (alookup t) (M_of (U ++ concat higher)).
 Proof. exact load_trie_inv_nounk. Qed.
+
+(* ---- down to the bits: the same statement for the answers computed from the MEMORY of the trie ----------------------------------------
+   `mem_table` (coq/C03/TrieEndToEnd.v) decodes what TrieSearch's lookup -- unigram array, then one BoundedSortedUniformFind (Pivot32) per
+   further word over the bit-packed arrays written through the generated WriteInt57 / WriteNonPositiveFloat31 / WriteFloat32, with the
+   ArrayBhiksha offset tables when array = true -- finds in the memory laid out from the loaded table (whose bytes the checks compare
+   with the binary files).  By C03_memory_table_invariants it satisfies TInv whenever the loaded table does, so FullScoreForgotState
+   computed from the memory returns the ARPA back-off recursion, for every history and every word of the vocabulary. *)
+From Kenlm Require Import C03.TrieEndToEnd.
+Corollary C01_trie_memory_end_to_end : forall (array : bool) cfg N V (t : atable) pz M K,
+  (2 <= N)%nat -> 0 <= V < 2 ^ 32 -> 0 <= cfg -> TInv N (alookup t) M -> NoDup (map fst t) ->
+  (forall w, alookup t [w] <> None <-> Z.of_N w < V) ->
+  (forall k e, alookup t k = Some e -> - 2 ^ 24 < e_prob e < 2 ^ 24 /\ - 2 ^ 24 < e_bo e < 2 ^ 24) ->
+  (forall k e, alookup t k = Some e -> (2 <= length k)%nat -> e_prob e <= 0) ->
+  (forall k e, alookup t k = Some e -> length k = N -> e_bo e = 0) ->
+  Z.of_nat (N * length t) < 2 ^ 57 ->
+  forall ctx w, Z.of_N w < V ->
+  r_prob (fst (full_score_forgot N (mem_table array cfg N V t pz) K ctx w)) = bo_score N M ctx w.
+Proof.
+  intros array cfg N V t pz M K HN HV Hc Inv Hnd Hd Hr Hneg Hl Hs ctx w Hw.
+  apply (forgot_prob N HN _ M K (mem_table_TInv array cfg N V t pz M HN HV Hc Inv Hnd Hd Hr Hneg Hl Hs)).
+  apply (T'_none_iff array cfg N V t pz M HN HV Hc Inv Hnd Hd Hr Hneg Hl Hs). apply Hd. exact Hw.
+Qed.
